@@ -209,6 +209,9 @@ def _corruptions(text):
     yield '{"flt": "text", "stc": 5, "num": 99, "unknown": 1, "plain": 7, "en": 7, "arr": [1,2,3,4,5], "blob": "!!"}'
     yield '{"flt": 25, "stc": {"i": 4}, "num": 1e999}'
     yield text.replace('1', '"1"')
+    yield '[' * 100000                                   # deeper than the JSON decoder's recursion limit
+    yield '{"arr": ' + '[' * 100000 + '}'
+    yield '{"num": 1' + ' ' * 50000 + '}'
     yield text.encode().replace(b'"', b'\xff', 1).decode('latin-1')
 
 
@@ -307,4 +310,57 @@ def gen_precedence(tier, rng):
                 shutil.rmtree(tmp, ignore_errors=True)
 
 
-GENS = {'PersistentMixin.__init__': gen_precedence,'PersistentMixin.__save_params': gen_save, 'PersistentMixin.loadPersistentData': gen_load}
+def _rt_class():
+    from frappy.modules import Module
+    from frappy.persistent import PersistentMixin, PersistentParam
+    from frappy.datatypes import ScaledInteger, StructOf, IntRange, StringType, FloatRange, BoolType, EnumType, ArrayOf, TupleOf, BLOBType
+    pid = lambda: StructOf(p=FloatRange(0, 100), ramp=FloatRange(0, 10), tol=FloatRange(0, 1), optional=['ramp', 'tol'])
+
+    class Mod(PersistentMixin, Module):
+        flt = PersistentParam('', ScaledInteger(0.1), default=1.0)
+        num = PersistentParam('', FloatRange(-5, 5), default=0.5)
+        flag = PersistentParam('', BoolType(), default=True)
+        en = PersistentParam('', EnumType(a=1, b=2), default=2)
+        txt = PersistentParam('', StringType(isUTF8=True), default='dflt')
+        arr = PersistentParam('', ArrayOf(IntRange(0, 9), 0, 3), default=(1, 2, 3))
+        tup = PersistentParam('', TupleOf(IntRange(), StringType()), default=(3, 'x'))
+        blob = PersistentParam('', BLOBType(0, 8), default=b'ab')
+        ctrl = PersistentParam('', pid(), default={'p': 1.0, 'ramp': 5.0, 'tol': 0.5})
+        ctrls = PersistentParam('', ArrayOf(pid(), 0, 3), default=({'p': 1.0, 'ramp': 5.0, 'tol': 0.2}, {'p': 2.0, 'ramp': 5.0, 'tol': 0.1}))
+        pair = PersistentParam('', TupleOf(pid(), IntRange()), default=({'p': 1.0, 'ramp': 5.0, 'tol': 0.5}, 1))
+    return Mod
+
+
+def gen_roundtrip(tier, rng):
+    """save on one module instance, load on a new one: every datatype, values different from the defaults - empty / shorter arrays,
+    falsy values, structs with optional members left out (at top level, inside arrays and tuples)"""
+    import types
+    from bounded import nodelib
+    from frappy.lib import generalConfig
+    Mod = _rt_class()
+    value_sets = [
+        dict(flt=2.5, num=-1.25, flag=False, en=1, txt='', arr=(), tup=(0, ''), blob=b''),
+        dict(ctrl={'p': 20.0}, ctrls=({'p': 3.0},), pair=({'p': 7.0}, 0)),
+        dict(ctrl={'p': 0.0, 'tol': 0.0}, ctrls=(), arr=(9,), txt='q"\u00e9 '),
+        dict(ctrl={'p': 1.0, 'ramp': 5.0, 'tol': 0.5}, ctrls=({'p': 1.0, 'ramp': 1.0, 'tol': 1.0}, {'p': 2.0})),
+        dict(),
+    ]
+    for vs in value_sets:
+        tmp = tempfile.mkdtemp(prefix='verif-pers-')
+        try:
+            generalConfig.logdir = Path(tmp)
+            srv = types.SimpleNamespace(dispatcher=types.SimpleNamespace(announce_update=lambda m, p: None),
+                                        secnode=types.SimpleNamespace(equipment_id='verif'))
+            m = Mod('m', nodelib.quiet_logger(), {'description': ''}, srv)
+            for p, v in vs.items():
+                # the value as the datatype itself returns it for this input (no previous value: members left out stay left out)
+                m.parameters[p].value = m.parameters[p].datatype.validate(v)
+            m.saveParameters()
+            saved = {p: pobj.value for p, pobj in m.parameters.items() if getattr(pobj, 'persistent', False)}
+            m2 = Mod('m', nodelib.quiet_logger(), {'description': ''}, srv)
+            yield dict(label=f'saved {vs!r}', self=m2, args={}, ghosts={'saved_values': saved})
+        finally:
+            shutil.rmtree(tmp, ignore_errors=True)
+
+
+GENS = {'PersistentMixin.loadPersistentData[roundtrip]': gen_roundtrip, 'PersistentMixin.__init__': gen_precedence,'PersistentMixin.__save_params': gen_save, 'PersistentMixin.loadPersistentData': gen_load}
